@@ -34,6 +34,10 @@ structure Ctx where
   db : Nat
   now : Int                   -- unix milliseconds
   cfg : Cfg := {}
+  /-- resolution of Go map iteration order where a handler's effect depends on it (permutation index) -/
+  order : Nat := 0
+  /-- resolution of math/rand picks: the members named by the observed reply -/
+  hint : List Bytes := []
 deriving Repr, Inhabited
 
 def State.db (s : State) (i : Nat) : Db := (s.dbs.get i).getD ⟨[], []⟩
@@ -121,6 +125,31 @@ def flushDb (s : State) (db : Nat) : Option State :=
   let d := s.db db
   some { s with dbs := s.dbs.put db ⟨[], d.vol.map fun _ => []⟩ }
 
+/-- in-place mutation through the stored pointer (Set.Add/Remove, SortedSet.AddOrUpdate/Remove …):
+    no SetValues, no accounting; every key of the selected database holding the same object sees it -/
+def mutObj (s : State) (db : Nat) (k : Bytes) (v : Val) : State :=
+  match s.lookup db k with
+  | none => s
+  | some e =>
+    let oid := e.val.oid
+    let d := s.db db
+    let store := d.store.map fun (k', e') =>
+      if k' = k || (oid != 0 && e'.val.oid == oid) then (k', (⟨v.withOid oid, e'.exp⟩ : Entry)) else (k', e')
+    { s with dbs := s.dbs.put db ⟨store, d.vol⟩ }
+
+/-- ghost step: name the pointer stored at `k` (no Go-level effect; used when a handler is about to
+    store the same pointer under a second key) -/
+def tagOid (s : State) (db : Nat) (k : Bytes) (o : Nat) : State :=
+  match s.lookup db k with
+  | none => s
+  | some e =>
+    let d := s.db db
+    { s with dbs := s.dbs.put db ⟨d.store.put k ⟨e.val.withOid o, e.exp⟩, d.vol⟩ }
+
+/-- an object id not used by any stored value -/
+def newOid (s : State) : Nat :=
+  1 + (s.dbs.foldl (fun m (_, d) => d.store.foldl (fun m (_, e) => max m e.val.oid) m) 0)
+
 def flushAll (s : State) : State :=
   { s with dbs := s.dbs.map fun (i, d) => (i, (⟨[], d.vol.map fun _ => []⟩ : Db)) }
 
@@ -134,6 +163,9 @@ inductive Prim where
   | setExpiry (k : Bytes) (e : Option Int) (touch : Bool)
   | deleteKey (k : Bytes)
   | flush (all : Bool)
+  | mutObj (k : Bytes) (v : Val)
+  | newOid
+  | tagOid (k : Bytes) (o : Nat)
 deriving Repr
 
 def Prim.Res : Prim → Type
@@ -144,6 +176,9 @@ def Prim.Res : Prim → Type
   | .setExpiry _ _ _ => Unit
   | .deleteKey _ => Unit
   | .flush _ => Unit
+  | .mutObj _ _ => Unit
+  | .newOid => Nat
+  | .tagOid _ _ => Unit
 
 /-- one primitive, executed atomically under the store lock; `none` = Go runtime panic -/
 def Prim.exec (c : Ctx) (s : State) : (p : Prim) → Option (State × p.Res)
@@ -155,6 +190,9 @@ def Prim.exec (c : Ctx) (s : State) : (p : Prim) → Option (State × p.Res)
   | .deleteKey k => some (Sugar.deleteKey s c.db k, ())
   | .flush true => some (flushAll s, ())
   | .flush false => (flushDb s c.db).map fun s' => (s', ())
+  | .mutObj k v => some (Sugar.mutObj s c.db k v, ())
+  | .newOid => some (s, Sugar.newOid s)
+  | .tagOid k o => some (Sugar.tagOid s c.db k o, ())
 
 inductive Prog (α : Type) where
   | ret (a : α)
